@@ -5,6 +5,7 @@ import (
 	"reflect"
 	"sort"
 	"strings"
+	"time"
 )
 
 // Val is a serialisable description of a Go value placed in a render context.
@@ -150,6 +151,14 @@ func (v *Val) Build(order int) interface{} {
 		return *p
 	case "stringer":
 		return Label{v.S}
+	case "time":
+		return time.Unix(v.I, 0).UTC()
+	case "pmap": // pointer to a map value holder (prints with an address)
+		m := map[string]interface{}{}
+		for _, kv := range ents() {
+			m[kv.K] = kv.V.Build(order)
+		}
+		return &m
 	}
 	return nil
 }
